@@ -139,7 +139,7 @@ CHECKS = {
         "races": True,
         "rule": "(a) end to end: a genuine session is recorded at the network boundary and replayed from a foreign address (whole "
                 "stream / prefix at a segment boundary / first segment; 1-3 times; 0..179 s later; original open or closed; with or "
-                "without a concurrent fresh genuine connection; a quarter of the cases place the original 3 s before a known rotation "
+                "without a concurrent fresh genuine connection; a quarter of the replays go to another listening port of the same server; a quarter of the cases place the original 3 s before a known rotation "
                 "instant of the process-wide cache); (a') the recorded first segment / all segments presented on the OTHER transport of "
                 "the same server port (TCP recording as UDP datagrams, UDP recording as a TCP stream), first write below and above the "
                 "piggy-back limit, with low-entropy patterns; (b) replay.NewCache with capacity 1..8 and interval 2..10 virtual seconds under "
